@@ -10,7 +10,7 @@ META = {
     "text": "Fault enumeration: the set of fault points is every audited file-system effect (open, mkdir, remove, rename, rmdir, rmtree, mkdtemp) the real session issues under its scratch root, every tar member written by the dump and every computation / user-code step; each is failed once in a fresh world and the outcome (raised?, archive absent / byte-identical previous / complete new / partial, retry result) is judged by the TLA+ predicate C38_Intact. TLC also checks the design (all fault positions of the abstract session) and that the recorded effect sequence has the shape of the modelled close region.",
     "note": "Failures are exceptions raised at the fault point (not power loss); parts are synthetic small arrays so that a session takes 50 ms. A failure after the archive has been completely written (e.g. while removing the temporary directory) leaves the complete new archive: accepted as not corrupt/partial.",
     "design_ref": "4.4, 5 C38",
-    "rule": "fault point = (session kind new|edit, class effect|member|compute, index); every point executed once; non-trivial = the fault fired",
+    "rule": "fault point = (session kind new|edit|copy (edit + deepcopy to a second path), class effect|member|compute, index); every point executed once; thorough: ordered pairs (first fault at every effect, second fault on the retry at 5 sampled effects, then a clean retry); non-trivial = the fault fired",
 }
 
 ATOMIC = "TRUE"  # the close() of the tree under test dumps to a sibling file and renames
@@ -19,7 +19,11 @@ ATOMIC = "TRUE"  # the close() of the tree under test dumps to a sibling file an
 def _run(args):
     from harness.drivers import fsfault
 
-    kind, cls, idx = args
+    kind, cls, idx = args[:3]
+    if cls == "pair":
+        r = fsfault.run_session(kind, fail_at=idx, retry_fail_at=args[3])
+        r.update(cls=cls, i=idx, j=args[3])
+        return r
     if cls == "effect":
         r = fsfault.run_session(kind, fail_at=idx)
     elif cls == "member":
@@ -42,7 +46,7 @@ def run(chk):
     recs = []
     plan = []
     base = {}
-    for kind in ("new", "edit"):
+    for kind in ("new", "edit", "copy"):
         b = fsfault.run_session(kind)
         if b["raised"] or b["arc"] != "new":
             raise MachineryError(f"fault-free {kind} session failed: {b}")
@@ -53,6 +57,13 @@ def run(chk):
         plan += [(kind, "compute", i) for i in range(1, b["computes"] + 1)]
         chk.sample({"kind": kind, "effects": b["n"], "tar_members": b["members"], "compute_steps": b["computes"],
                     "non_tmp_steps": [s for s in b["steps"] if s != "tmp"]})
+    if chk.thorough():
+        # ordered pairs: a first fault at every effect, a second fault on the retry run at sampled effects
+        for kind in ("new", "edit", "copy"):
+            n = base[kind]["n"]
+            for i in range(1, n + 1):
+                for j in sorted(chk.rng.sample(range(1, n + 1), 5)):
+                    plan.append((kind, "pair", i, j))
     with mp.get_context("fork").Pool(16) as pool:
         outs = pool.map(_run, plan, chunksize=4)
     done = {}
@@ -60,11 +71,13 @@ def run(chk):
         chk.count(1, (o["kind"], o["cls"], o["i"]), nontrivial=o["fired"])
         if not o["fired"]:
             chk.diag(f"fault point did not fire: {o['kind']} {o['cls']} {o['i']}")
-        done.setdefault((o["kind"], o["cls"]), []).append(o["i"])
+        if o["cls"] != "pair":
+            done.setdefault((o["kind"], o["cls"]), []).append(o["i"])
         recs.append({"ev": "outcome", "kind": o["kind"], "cls": o["cls"], "i": o["i"], "n": o["n"],
-                     "raised": o["raised"], "arc": o["arc"], "retry": o["retry"],
-                     "step": base[o["kind"]]["steps"][o["i"] - 1] if o["cls"] == "effect" else o["cls"]})
-    for kind in ("new", "edit"):
+                     "raised": o["raised"], "arc": o["arc"], "retry": o["retry"], "origIntact": o["origIntact"],
+                     "arc2nd": o["arc2nd"] or "none",
+                     "step": base[o["kind"]]["steps"][o["i"] - 1] if o["cls"] in ("effect", "pair") else o["cls"]})
+    for kind in ("new", "edit", "copy"):
         for cls, n in (("effect", base[kind]["n"]), ("member", base[kind]["members"]), ("compute", base[kind]["computes"])):
             recs.append({"ev": "coverage", "kind": kind, "cls": cls, "n": n, "done": sorted(done.get((kind, cls), []))})
     chk.sample(next(x for x in recs if x["ev"] == "outcome" and x.get("step") not in ("tmp",)))
@@ -87,7 +100,8 @@ def run(chk):
         else:
             chk.diag(f"{v}: {rec if rec['ev'] != 'effects' else [s for s in rec['steps'] if s != 'tmp']}")
     # binding demonstration
-    bad = [{"ev": "outcome", "kind": "edit", "cls": "effect", "i": 1, "n": 1, "raised": "OSError", "arc": "absent", "retry": True, "step": "x"}]
+    bad = [{"ev": "outcome", "kind": "edit", "cls": "effect", "i": 1, "n": 1, "raised": "OSError", "arc": "absent", "retry": True, "step": "x",
+            "origIntact": True, "arc2nd": "none"}]
     r2 = chk.tlc("FsFaultTrace", f"FsFaultTrace_{ATOMIC}.cfg", trace=bad, workers=1, label="corrupted outcome (must be rejected)")
     if not r2.printed("BAD"):
         raise MachineryError("binding demonstration failed")
